@@ -37,7 +37,7 @@ theorem reduceCtx_poetry (E : Env) (X Y Z : Nat) (hE : EnvPy E X Y Z) (S : LeafS
   canon := fun l hl => by obtain ⟨_, _, _, _, hc⟩ := hl; exact hc
   reparse := HR
   gpcLeaf_exact := fun l c hg hp hn hgl => by
-    obtain ⟨s, item, rfl, hop, hitem, vc, hvc, hb⟩ :=
+    obtain ⟨s, item, rfl, hop, hitem, ⟨vc, hvc, hb⟩, _⟩ :=
       leafClause_of_comp E X Y Z hE l hg hp (convKey_of_isPyName hn)
     rw [gpcLeaf_single s item hn hop hitem, hvc] at hgl
     injection hgl with hgl; subst hgl
